@@ -128,18 +128,20 @@ inductive Instr
   | constAddr (to : Var) (name : Nat)
   | funcAddr (to : Var)
   | initString (to : Var)
-  | call (to : Option Var) (isPtr : Bool) (ctx : Option Operand) (retPtr : Option Var)
-      (args : List Operand)
+  | call (fn : Nat) (to : Option Var) (isPtr : Bool) (ctx : Option Operand) (retPtr : Option Var)
+      (args : List Operand)  -- `fn` = index of the callee in the program
   | callRt (args : List Operand)
   | arith (to : Var) (isPtr : Bool)
   | offset (to : Var) (src : Operand) (n : Nat)
   | initBytes (to : Var)
   | write (to : Operand) (val : Operand)
   | read (to : Var) (isPtr : Bool) (src : Operand)
-  | copy (to : Operand) (src : Operand)
+  | copy (to : Operand) (src : Operand) (size : Nat)
   | clone (to : Operand) (src : Operand)
   | drop (v : Operand) (hasFn : Bool)
-  | nop               -- jump, switch, return
+  | eq (to : Var) (left : Operand) (right : Operand)  -- `eq_fn(left, right)`: a Rust function handed two read-only pointers
+  | ret (v : Option Operand)
+  | nop               -- jump, switch
   deriving DecidableEq, Repr
 
 structure Item where
@@ -206,7 +208,7 @@ def step (env : Env) (nd : Val) : Instr → Env × List Region
   | .constAddr to name => (env.set to (.ptr (.const name) 0), [])
   | .funcAddr to => (env.set to (.ptr .code 0), [])
   | .initString to => (env, wtarget (env to))
-  | .call to isPtr _ctx retPtr args =>
+  | .call _ to isPtr _ctx retPtr args =>
       (setOpt env to (coerce isPtr nd), optTargets env retPtr ++ argTargets env args)
   | .callRt args => (env, argTargets env args)
   | .arith to isPtr => (env.set to (coerce isPtr nd), [])
@@ -214,9 +216,11 @@ def step (env : Env) (nd : Val) : Instr → Env × List Region
   | .initBytes to => (env, wtarget (env to))
   | .write to _ => (env, wtarget (evalOp env to))
   | .read to isPtr _ => (env.set to (coerce isPtr nd), [])
-  | .copy to _ => (env, wtarget (evalOp env to))
+  | .copy to _ _ => (env, wtarget (evalOp env to))
   | .clone to _ => (env, wtarget (evalOp env to))
   | .drop v hasFn => (env, if hasFn then wtarget (evalOp env v) else [])
+  | .eq to _ _ => (env.set to (coerce false nd), [])
+  | .ret _ => (env, [])
   | .nop => (env, [])
 
 /-- all regions written along an execution -/
@@ -266,7 +270,7 @@ def okInstr (cert : Var → Cls) : Instr → Bool
   | .constAddr to _ => cert to == .any
   | .funcAddr to => cert to == .any
   | .initString to => cert to == .loc
-  | .call to isPtr _ retPtr args =>
+  | .call _ to isPtr _ retPtr args =>
       (match to with | none => true | some v => okResult cert v isPtr)
       && (match retPtr with | none => true | some r => cert r == .loc)
       && args.all (fun a => clsOp cert a != .any)
@@ -276,9 +280,11 @@ def okInstr (cert : Var → Cls) : Instr → Bool
   | .initBytes to => cert to == .loc
   | .write to _ => clsOp cert to == .loc
   | .read to isPtr _ => okResult cert to isPtr
-  | .copy to _ => clsOp cert to == .loc
+  | .copy to _ _ => clsOp cert to == .loc
   | .clone to _ => clsOp cert to == .loc
   | .drop v hasFn => !hasFn || clsOp cert v == .loc
+  | .eq to _ _ => okResult cert to false
+  | .ret _ => true
   | .nop => true
 
 def okInit (cert : Var → Cls) (it : Item) : Bool :=
@@ -317,7 +323,8 @@ def inferInstr (cert : Array (Option Cls)) : Instr → Array (Option Cls)
   | .assign to val => bump cert to (clsOpI cert val)
   | .constAddr to _ => bump cert to (some .any)
   | .funcAddr to => bump cert to (some .any)
-  | .call (some to) isPtr _ _ _ => bump cert to (some (resultCls isPtr))
+  | .call _ (some to) isPtr _ _ _ => bump cert to (some (resultCls isPtr))
+  | .eq to _ _ => bump cert to (some .sc)
   | .arith to isPtr => bump cert to (some (resultCls isPtr))
   | .offset to src _ => bump cert to (clsOpI cert src)
   | .read to isPtr _ => bump cert to (some (resultCls isPtr))
